@@ -166,7 +166,7 @@ fn short(ops: &[Op]) -> String {
             Op::New => "new".to_string(),
             Op::Store { id, .. } => format!("store {}", &hex(id)[..8.min(hex(id).len())]),
             Op::SetRoot { entries } => format!(
-                "setroot[{}]",
+                "setroot({})",
                 entries.iter().map(|e| format!("{:o}:{}", e.mode, String::from_utf8_lossy(&e.name))).collect::<Vec<_>>().join(",")
             ),
             Op::Upsert { cur, mode, id, path } => format!("{}U {:o} {} {}", if *cur { "c" } else { "" }, mode, &hex(id)[..4.min(hex(id).len())], p(path)),
@@ -470,6 +470,8 @@ impl Fs {
     }
 }
 
+static NULL_TREE_AS_DOCUMENTED: std::sync::atomic::AtomicBool = std::sync::atomic::AtomicBool::new(false);
+
 /// apply the history to the expectation; returns for every op index the expected leaves *at that op* if it is a write
 fn run_expected(ops: &[Op]) -> Vec<Option<(bool, BTreeMap<Path, (u16, Vec<u8>)>, String)>> {
     run_expected2(ops).0
@@ -530,8 +532,13 @@ fn run_expected2(ops: &[Op]) -> (Vec<Option<(bool, BTreeMap<Path, (u16, Vec<u8>)
                             fs.remove_prefixes_of(&full);
                             if is_tree_mode(*mode) {
                                 if *id == null_id() {
-                                    // an explicit null-id tree placeholder: later edits below it fail with a find error
-                                    fs.out("explicit null-id tree placeholder");
+                                    // An explicit null-id tree placeholder. The docs of `upsert` say "paths leading through
+                                    // them will not be considered a problem"; the code fails the next edit below it with a
+                                    // find error. Judged as documented only for the corpus witness (recorded finding);
+                                    // random histories containing one are observed, not judged.
+                                    if !NULL_TREE_AS_DOCUMENTED.load(std::sync::atomic::Ordering::Relaxed) {
+                                        fs.out("explicit null-id tree placeholder");
+                                    }
                                 } else {
                                     match store.get(id) {
                                         Some(sub) if !sub.is_empty() => {
@@ -830,7 +837,7 @@ fn do_history(rep: &mut Report, git: &mut GitOracle, ops: &[Op], with_git: bool,
         let small = shrink(ops);
         let sreal = run_real(&small);
         let sprob = judge_local(&small, &sreal);
-        rep.oracle_failure(&format!("history [{}]", short(&small)), &sprob.join("; "), &op_line(&small));
+        rep.oracle_failure(&format!("history {}", short(&small)), &sprob.join("; "), &op_line(&small));
         return;
     }
     for w in &real.writes {
@@ -838,7 +845,7 @@ fn do_history(rep: &mut Report, git: &mut GitOracle, ops: &[Op], with_git: bool,
             if *in_domain {
                 rep.bucket("write:in-domain");
                 if with_git {
-                    git.pending.push((format!("history [{}] write #{}", short(ops), w.op_index), line.clone(), w.root.to_string(), leaves.clone()));
+                    git.pending.push((format!("history {} write #{}", short(ops), w.op_index), line.clone(), w.root.to_string(), leaves.clone()));
                 }
             } else {
                 rep.bucket("write:outside-domain");
@@ -1105,6 +1112,18 @@ fn main() {
     ];
     for ops in &corpus {
         do_history(&mut rep, &mut git, ops, true, "corpus");
+    }
+    // the witness of Props.C04.null_tree_placeholder_blocks_edits, judged by what the documentation promises
+    {
+        NULL_TREE_AS_DOCUMENTED.store(true, std::sync::atomic::Ordering::Relaxed);
+        let ops = vec![
+            Op::New,
+            Op::Upsert { cur: false, mode: 0o040000, id: null_id(), path: p(&["a"]) },
+            u(p(&["a", "b"]), 1),
+            Op::Write { cur: false },
+        ];
+        do_history(&mut rep, &mut git, &ops, false, "corpus");
+        NULL_TREE_AS_DOCUMENTED.store(false, std::sync::atomic::Ordering::Relaxed);
     }
     for len in 1..=(if args.thorough { 4 } else { 3 }) {
         exhaustive(&mut rep, &mut git, len, len <= 2);
